@@ -1,4 +1,5 @@
 import PsyVerif.Lemmas.Copy
+import PsyVerif.Lemmas.CopyCase
 /-! # C15 — Copies of PSyIR subtrees are independent and equal
 
 Model: `PsyVerif/Model/Copy.lean` — `Node.copy/_refine_copy`, `ScopingNode._refine_copy`,
@@ -32,6 +33,13 @@ Statements:
                            helper object held by a node of the copied subtree;
                            `C15_edit_independent_generic`: for subtrees whose nodes hold no such
                            object (generic PSyIR) that is ALL edit lists;
+* `C15_case_copy_eq`      identifier case: the copy as the code performs it — every re-pointing is a
+                           dict read with the NORMALISED name (`copyL`, `Model/CopyCase.lean`; symbols
+                           keep mixed-case spellings given through the API) — is the positional copy
+                           whenever the tables have distinct keys, hence `C15_case_copy_equal`,
+                           `C15_case_refs_internal`, `C15_case_edit_independent`; the invariant is kept
+                           by copy/rename/new_symbol/remove (`C15_case_keys_*`); without `_normalize`
+                           the clause is false (`C15_case_raw_misses`, `C15_case_raw_counterexample`);
 * `C15_shared_attr_counterexample` `copy.copy` hands the helper objects of nodes on (PSyKAl kernels:
                            `KernelArguments`, OpenCL option dict): `C15_statement_full deployed` is false
                            (known findings C15-psykal-shared-*);
@@ -1179,5 +1187,208 @@ example : ∀ e ∈ demoEdits, e.onOriginal demoWorld 1 := by
 example : ∀ e ∈ [Edit.rename 13 8 5, .detach 14, .addSym 13 3 [8] .nil .nil false, .attach 13 0 14,
     .setAccess 11 1, .setSym 19 none], e.onCopy deployed demoWorld 0 := by
   unfold Edit.onCopy; decide
+
+
+/-! ## Identifier case: the code re-points by normalised name
+
+`copyL lower` is the copy as the code performs it: every re-pointing is a dict read in the new table
+with the NORMALISED name of the symbol (`Model/CopyCase.lean`); symbols keep their spelling, so tables
+may hold mixed-case names (`new_symbol("iCell")`, `rename_symbol(s, "tmpVal")`).  For any lower-casing
+function and any spellings: when every table of the copied subtree has pairwise distinct keys (the
+symbol-table invariant, C16; preserved by copy and by the edits, below), the code's copy IS the
+positional copy of `Model/Copy.lean`, so every theorem above holds for it. -/
+
+/-- **by-name = positional.** -/
+theorem C15_case_copy_eq (lower : Nat → Nat) (ifc : Bool) {W : World} (r : Nat)
+    (hk : TablesKeyed lower W (sub W r)) :
+    copyL lower ifc W r = copy ⟨true, ifc⟩ W r ∧ copyTreeL lower W r = copyTree ⟨true, ifc⟩ W r := by
+  have h1 : rhoL lower W (findIn r W.trees).tables W.nsym = rho (findIn r W.trees).owned W.nsym := by
+    funext s; rw [rhoL_eq lower W hk, owned_eq_tables]
+  have h2 : rhoTL lower W (findIn r W.trees).tables W.nsym = rho (findIn r W.trees).owned W.nsym := by
+    funext s; rw [rhoTL_eq lower W hk, owned_eq_tables]
+  constructor
+  · unfold copyL; simp only [h1, h2]; exact copyG_rho W ifc r
+  · unfold copyTreeL; simp only [h1, h2]; exact copyTreeG_rho W ifc r
+
+/-- **Equal**, for the by-name copy with arbitrary spellings -/
+theorem C15_case_copy_equal (lower : Nat → Nat) {W : World} (wf : WF W) (r : Nat)
+    (hk : TablesKeyed lower W (sub W r)) :
+    view (copyL lower true W r) (copyTreeL lower W r) = view W (sub W r) := by
+  rw [(C15_case_copy_eq lower true r hk).1, (C15_case_copy_eq lower true r hk).2]
+  exact C15_copy_equal deployed wf r
+
+/-- **Internal references**, for the by-name copy: no symbol of the original's copied scopes is read -/
+theorem C15_case_refs_internal (lower : Nat → Nat) {W : World} (wf : WF W) (r : Nat)
+    (hk : TablesKeyed lower W (sub W r)) :
+    ∀ s ∈ reads (copyL lower true W r) (copyTreeL lower W r),
+      (s ∈ (copyTreeL lower W r).owned ∨ (s < W.nsym ∧ s ∉ (sub W r).owned)) ∧ s ∉ (sub W r).owned := by
+  rw [(C15_case_copy_eq lower true r hk).1, (C15_case_copy_eq lower true r hk).2]
+  intro s hs
+  exact ⟨C15_copy_refs_internal (m := deployed) wf r (Or.inl rfl) s hs,
+         C15_copy_reads_no_original (m := deployed) wf r (Or.inl rfl) s hs⟩
+
+/-- **Independent**, for the by-name copy: the statement of `C15_statement` with `copyL` -/
+theorem C15_case_edit_independent (lower : Nat → Nat) {W : World} (wf : WF W) (r : Nat)
+    (hk : TablesKeyed lower W (sub W r)) (es : List Edit) (hna : ∀ e ∈ es, e.noSharedAttr W r) :
+    ((∀ e ∈ es, e.onOriginal W r) →
+      copyTreeL lower W r ∈ (run (copyL lower true W r) es).trees ∧
+      view (run (copyL lower true W r) es) (copyTreeL lower W r) = view W (sub W r)) ∧
+    ((∀ e ∈ es, e.onCopy deployed W r) →
+      ∀ t ∈ W.trees, t ∈ (run (copyL lower true W r) es).trees ∧
+        view (run (copyL lower true W r) es) t = view W t) := by
+  rw [(C15_case_copy_eq lower true r hk).1, (C15_case_copy_eq lower true r hk).2]
+  exact C15_edit_independent W wf r es hna
+
+/-! ### the invariant is kept -/
+
+/-- the tables of the copy have distinct keys again (the copies keep the spellings) -/
+theorem C15_case_keys_copy (lower : Nat → Nat) (m : Mode) {W : World} (wf : WF W) (r : Nat)
+    (hk : TablesKeyed lower W (sub W r)) :
+    TablesKeyed lower (copy m W r) (copyTree m W r) := by
+  intro l' hl'
+  unfold copyTree at hl'
+  rw [tables_map_copy] at hl'
+  obtain ⟨l, hl, rfl⟩ := List.mem_map.mp hl'
+  have := hk l hl
+  unfold KeysDistinct at this ⊢
+  rw [List.map_map]
+  have hc : l.map (key lower (copy m W r) ∘ rho (findIn r W.trees).owned W.nsym) = l.map (key lower W) := by
+    apply List.map_congr_left
+    intro s hs
+    have hlt : s < W.nsym := by
+      have := sub_syms_lt wf r s
+      simp only [List.mem_append] at this
+      exact this (Or.inr (mem_tables_owned hl hs))
+    simp only [Function.comp, key, name_copy_rho m W r hlt]
+  rw [hc]; exact this
+
+/-- `rename_symbol(s, n)` accepted (the normalised new name is not a key of the table): the table,
+with `s` re-inserted at its end under the new name, has distinct keys -/
+theorem C15_case_keys_rename (lower : Nat → Nat) (W : World) (p s n : Nat) {l : List Nat}
+    (hk : KeysDistinct lower W l) (hok : renameOK lower W l n = true) :
+    KeysDistinct lower (apply W (.rename p s n)) (l.erase s ++ [s]) := by
+  unfold KeysDistinct at hk ⊢
+  have hnd : l.Nodup := List.Pairwise.of_map (key lower W) (fun a b h e => h (e ▸ rfl)) hk
+  have hname : ∀ t ∈ l.erase s, key lower (apply W (.rename p s n)) t = key lower W t := by
+    intro t ht
+    have : t ≠ s := fun h => (List.Nodup.mem_erase_iff hnd).mp ht |>.1 h
+    simp [key, apply, this]
+  rw [List.map_append, List.map_congr_left hname]
+  have hsub : (l.erase s).map (key lower W) |>.Sublist (l.map (key lower W)) :=
+    List.Sublist.map _ List.erase_sublist
+  rw [List.nodup_append]
+  refine ⟨List.Nodup.sublist hsub hk, by simp, ?_⟩
+  intro a ha b hb
+  simp only [List.map_cons, List.map_nil, List.mem_singleton] at hb
+  subst hb
+  intro hab
+  subst hab
+  have : lower n ∈ l.map (key lower W) := by
+    have h := hsub.subset ha
+    simpa [key, apply] using h
+  simp [renameOK] at hok
+  obtain ⟨t, ht, hkt⟩ := List.mem_map.mp this
+  exact hok t ht hkt
+
+/-- … and the tables that do not hold `s` keep their keys -/
+theorem C15_case_keys_rename_other (lower : Nat → Nat) (W : World) (p s n : Nat) {l : List Nat}
+    (hs : s ∉ l) :
+    KeysDistinct lower (apply W (.rename p s n)) l ↔ KeysDistinct lower W l := by
+  unfold KeysDistinct
+  have : l.map (key lower (apply W (.rename p s n))) = l.map (key lower W) := by
+    apply List.map_congr_left
+    intro t ht
+    have : t ≠ s := fun h => hs (h ▸ ht)
+    simp [key, apply, this]
+  rw [this]
+
+/-- `new_symbol(n)` with a name whose key is free: the extended table has distinct keys -/
+theorem C15_case_keys_add (lower : Nat → Nat) (W : World) (p n : Nat) (ls : List Nat) (bs ini : Forest)
+    (fr : Bool) {l : List Nat} (hk : KeysDistinct lower W l) (hlt : ∀ t ∈ l, t < W.nsym)
+    (hok : renameOK lower W l n = true) :
+    KeysDistinct lower (apply W (.addSym p n ls bs ini fr)) (l ++ [W.nsym]) := by
+  unfold KeysDistinct at hk ⊢
+  have hname : ∀ t ∈ l, key lower (apply W (.addSym p n ls bs ini fr)) t = key lower W t := by
+    intro t ht
+    have : t ≠ W.nsym := Nat.ne_of_lt (hlt t ht)
+    simp [key, apply, this]
+  rw [List.map_append, List.map_congr_left hname, List.nodup_append]
+  refine ⟨hk, by simp, ?_⟩
+  intro a ha b hb
+  simp only [List.map_cons, List.map_nil, List.mem_singleton] at hb
+  subst hb
+  intro hab
+  subst hab
+  simp [renameOK] at hok
+  obtain ⟨t, ht, hkt⟩ := List.mem_map.mp ha
+  exact hok t ht (by simpa [key, apply] using hkt)
+
+/-- `remove(s)` keeps the keys distinct -/
+theorem C15_case_keys_remove (lower : Nat → Nat) (W : World) (p s : Nat) {l : List Nat}
+    (hk : KeysDistinct lower W l) :
+    KeysDistinct lower (apply W (.removeSym p s)) (l.erase s) := by
+  unfold KeysDistinct at hk ⊢
+  have : (l.erase s).map (key lower (apply W (.removeSym p s))) = (l.erase s).map (key lower W) := by
+    apply List.map_congr_left; intro t _; simp [key, apply, mapTrees]
+  rw [this]
+  exact List.Nodup.sublist (List.Sublist.map _ List.erase_sublist) hk
+
+/-! ### without normalisation the copy is wrong
+
+`copyRaw` reads the dict of the old table with the SPELLING of the symbol
+(`old_symbols.get(node.symbol.name) is node.symbol`).  Every use of a symbol spelled with an upper-case
+letter is then left on the original's symbol. -/
+
+/-- a node of the copied subtree that uses a mixed-case symbol still uses the ORIGINAL's symbol in the
+raw copy -/
+theorem C15_case_raw_misses (lower : Nat → Nat) (W : World) (r : Nat) {s : Nat}
+    (hs : s ∈ (sub W r).syms) (hm : MixedCase lower W s)
+    (hidem : lower (lower (W.name s)) = lower (W.name s)) :
+    s ∈ (copyTreeRaw lower W r).syms := by
+  unfold copyTreeRaw copyTreeG
+  simp only [syms_map_copyG]
+  exact List.mem_map.mpr ⟨s, hs, rhoRaw_mixed lower W _ _ hm hidem⟩
+
+/-- lower-casing for the witness: name 11 is `tVal`, 21 is `tval` -/
+def caseLower (n : Nat) : Nat := if n = 11 then 21 else n
+
+theorem caseWorld_keyed : TablesKeyed caseLower witnessWorld (sub witnessWorld 0) := by
+  intro l hl
+  have : l = [0, 1, 2] := by
+    simpa [sub, findIn, Forest.find, witnessWorld, Forest.tables] using hl
+  subst this
+  unfold KeysDistinct
+  decide
+
+/-- `subroutine s(n); integer :: m; real :: tVal(m); tVal(1) = 0`: the keys are distinct, `tVal` is
+spelled in mixed case; the raw copy's Reference still uses the original's `tVal` (symbol 1), and
+renaming it in the original changes the code written for the copy; the code's copy is right -/
+theorem C15_case_raw_witness :
+    MixedCase caseLower witnessWorld 1 ∧
+    1 ∈ reads (copyRaw caseLower true witnessWorld 0) (copyTreeRaw caseLower witnessWorld 0) ∧
+    1 ∈ (sub witnessWorld 0).owned ∧
+    view (run (copyRaw caseLower true witnessWorld 0) [.rename 0 1 99]) (copyTreeRaw caseLower witnessWorld 0)
+      ≠ view witnessWorld (sub witnessWorld 0) ∧
+    (copyTreeL caseLower witnessWorld 0).syms = [4] ∧
+    view (run (copyL caseLower true witnessWorld 0) [.rename 0 1 99]) (copyTreeL caseLower witnessWorld 0)
+      = view witnessWorld (sub witnessWorld 0) := by
+  refine ⟨by unfold MixedCase; decide, by decide, by decide, by decide, by decide, by decide⟩
+
+/-- so the clause "references inside the copy use the copy's own symbols" is FALSE of the raw variant -/
+theorem C15_case_raw_counterexample :
+    ¬ (∀ (W : World), WF W → ∀ r, TablesKeyed caseLower W (sub W r) →
+        ∀ s ∈ reads (copyRaw caseLower true W r) (copyTreeRaw caseLower W r), s ∉ (sub W r).owned) := by
+  intro h
+  exact h witnessWorld witness_wf 0 caseWorld_keyed 1 C15_case_raw_witness.2.1 C15_case_raw_witness.2.2.1
+
+/-- non-vacuity: the hypotheses of the case theorems hold on the witness (a table with a mixed-case name) -/
+example : TablesKeyed caseLower witnessWorld (sub witnessWorld 0) ∧ MixedCase caseLower witnessWorld 1 ∧
+    WF witnessWorld := ⟨caseWorld_keyed, C15_case_raw_witness.1, witness_wf⟩
+example : renameOK caseLower witnessWorld [0, 1, 2] 11 = false ∧ renameOK caseLower witnessWorld [0, 1, 2] 21 = false ∧
+    renameOK caseLower witnessWorld [0, 1, 2] 99 = true := by decide
+example : tablesKeyedB caseLower witnessWorld (sub witnessWorld 0) = true := by decide
+/-- two spellings of one key in a table: not keyed, and the by-name copy re-points to the wrong symbol -/
+example : tablesKeyedB (fun _ => 0) witnessWorld (sub witnessWorld 0) = false ∧
+    (copyTreeL (fun _ => 0) witnessWorld 0).syms = [3] := by decide
 
 end C15
